@@ -946,7 +946,30 @@ def corpus_capacity(tier):
     return rows
 
 
-CORPORA = {"resolve": corpus_resolve, "params": corpus_params, "abort": corpus_abort, "framing": corpus_framing, "capacity": corpus_capacity}
+def corpus_corrupt(tier):
+    """C04: single-point corruptions of well-formed messages, run end to end with handlers that take their parameters as
+    optional (so that nothing but the library can object): the message must fail with a command error"""
+    tree, hs = TREE_B, handlers_b()
+    rows = []
+    datas = DATA if tier == "thorough" else DATA[::3]
+    for i, d in enumerate(datas):
+        t = d[-1]
+        for q in ((b"", b"?") if tier == "thorough" else (b"?" if i % 2 else b"",)):
+            base = b"ANY" + q + b" "
+            bad = [base + t + b",", base + t + b" ,", base + t + b", ", base + t + b",," + t, base + b"," + t, base + t + b" " + t, base + t + b",;*OPC?", base + t + b";,"]
+            bad += [b"ANY" + q + b":" + b" " + t, b"ANY::NONE", b"BRAN:" + q, b"ABCDEFGHIJKLM" + q, b"ANY" + q + b" " + t + b"\xff", b"ANY" + q + b" ABCDEFGHIJKLM", b"ANY" + q + b" 1 ABCDEFGHIJKLM"]
+            for m in bad:
+                rows.append(m)
+    rows += [b"ANY 'abc", b'ANY "abc', b"ANY #15ab", b"ANY #3", b"ANY #", b"ANY #H", b"ANY #HG", b"ANY (1,2", b"ANY 1e", b"ANY? 1,2,", b"ANY? 'a',", b"ANY #13abc,", b"ANY (1),", b"ANY #HFF,", b"ANY MAX,", b"ANY 1 V,",
+             b"*IDN?,", b"*IDN? ,", b":", b"ANY;:", b"ANY:", b"*OPC:?", b"ANY 1;;ANY", b"\xffANY", b"ANY\xff", b"A NY", b"ANY 1,\xff"]
+    seen = []
+    for m in rows:
+        if m not in seen:
+            seen.append(m)
+    return [(tree, hs, [Raw(m, None, ("class", "command"))], None, False, []) for m in seen]
+
+
+CORPORA = {"corrupt": corpus_corrupt, "resolve": corpus_resolve, "params": corpus_params, "abort": corpus_abort, "framing": corpus_framing, "capacity": corpus_capacity}
 
 
 def table(name, tier):
@@ -963,6 +986,11 @@ def table(name, tier):
         if post and exp["result"] == "Ok":
             exp = ref_run_raw(tree, hs, list(us) + list(post), cap, trail)
         got = run_message(tree, hs, msg, cap)
+        if name == "corrupt":
+            # only the verdict matters: a command error, reported once; which handlers ran before it is not prescribed
+            if isinstance(got, dict):
+                got = dict(got, calls=[])
+            exp = dict(exp, calls=[])
         rows.append((msg, cap, compare(got, exp)))
     _C[key] = rows
     return rows
